@@ -8,6 +8,26 @@ BUILT = {
     technique="deterministic simulation with fault injection: seeded producer/consumer/caller around the real library; fault position enumerated per run",
     text="Seeded simulation of producer and consumer around the real library; for every sampled (input, formats, read schedule) the fault position is enumerated over every input offset / every accepted output byte / every call index, and each execution is compared with its fault-free twin. Evidence, not proof: inputs and schedules are sampled.",
     note="Trusted: the fault-free twin run of xt itself defines the expected bytes; std::io adaptors and the serde crates run real code; the producer/consumer are stubs that obey the Read/Write contracts."),
+  "C02": dict(level="exploration", ref="§7 C02",
+    technique="deterministic simulation: seeded producer read schedules (incl. exhaustive short token sequences) vs slice supply, metamorphic oracle",
+    text="Every run executes the same bytes as a slice and through three simulated producers with different read schedules and compares verdicts and bytes. The token-sequence part of the input space is enumerated completely up to a length bound; everything else is seeded sampling. Evidence, not proof.",
+    note="Trusted: nothing but xt itself (metamorphic comparison); error texts are not compared. Open finding F4 is attributed by predicate + neutralising transform."),
+  "C03": dict(level="exploration", ref="§7 C03",
+    technique="deterministic simulation of caller histories (multi-call, mixed formats, stall-at-document read schedules, short writes) with a per-document reference concatenation and an independent framing reader",
+    text="Seeded caller histories on one Translator are compared with the concatenation of per-document translations and re-framed by an independent reader. Sampling of histories and schedules; evidence, not proof.",
+    note="Trusted: xt's own translation of each document alone (value correctness is not claimed); the harness's own JSON/MessagePack/YAML framing scanners."),
+  "C05": dict(level="exploration", ref="§7 C05",
+    technique="deterministic simulation: packetised producer, oracle over the recorded read/write event history (lag) and a counting allocator (memory)",
+    text="The property is about interaction over time; the simulator records every read and write with a global sequence number and checks the lag bound at every read, plus peak-heap growth between N/4 and N documents. Sampling of streams and packetisations; evidence, not proof.",
+    note="Trusted: counting global allocator attribution (harness bookkeeping excluded by guard); per-document output lengths from xt itself."),
+  "C08": dict(level="exploration", ref="§7 C08",
+    technique="deterministic simulation of caller histories against a TOML output with a two-variable reference model (presented/written) and planted refusable values",
+    text="Seeded histories of calls and documents (with planted nulls, oversized integers, non-table roots, second documents) are checked call by call against a small reference model of the TOML output object and the output is re-read with the toml crate and compared with the generator's model value.",
+    note="Trusted: the toml crate as the reader of the output; the generator's model values; floats restricted to short exact decimals so that C01's precision question is not re-decided."),
+  "C11": dict(level="fault_enumeration", ref="§7 C11",
+    technique="deterministic simulation with fault injection: consumer fault at every output byte, syntax defect at every input byte, unrepresentable value at random tree positions; expected reasons probed from the serializer/parser crates",
+    text="For each sampled document the writer fault position and the syntax-defect position are enumerated completely; the expected cause text is obtained by driving the target serializer / source parser directly. Documents, formats and supply modes are sampled.",
+    note="Trusted: serde_json/serde_yaml/rmp-serde/toml as the source of 'the serializer's own reason'; for MessagePack output that reason omits the io text by design of rmp-serde."),
 }
 
 NOT_YET = "check not built yet (work in progress; see DESIGN.md §7 for the planned simulation)"
